@@ -1,9 +1,10 @@
-(* Model/Opaque.v — SPECIFICATION functions (on integers) for the operations of property C04
-   part (a) whose model is not in /verif yet: multiplication, division, remainder, power, gcd,
-   modular addition / multiplication / power, integer root, Montgomery multiplication.
-   Model/History.v uses these functions *in place of a model* for the opcodes listed in
-   `History.opaque_ops` (to be replaced by the faithful models of C02/C03/C10/C11/C12/C13 when they
-   land); Run/RunC04a.v uses the same functions as the specification.  Nothing here looks at limbs.
+(* Model/Opaque.v — SPECIFICATION functions (on integers) for multiplication, division,
+   remainder, power, gcd, modular addition / multiplication / power, integer root, Montgomery
+   multiplication, as used by the integer interpreter of Run/RunC04a.v.
+   For the opcodes listed in `History.opaque_ops` (wrapping_pow, root: their model belongs to C13,
+   not in /verif yet) Model/History.v uses these functions *in place of a model*; for the others
+   History.v uses the models of Model/{Mul,UDiv,Gcd,Modular,Redc}.v and PfC04a proves that they
+   compute these functions.  Nothing here looks at limbs.
 
    x, y, z are the values of the three source registers, `imm` the immediate words. *)
 From RV.Model Require Import Base.
